@@ -646,7 +646,8 @@ class Factory:
         cls, location: str, table: dict[str, Any]
     ) -> list[str]:
         fields: list[tuple[str, Any]] = [
-            (key, table.get(key)) for key in ("name", "description")
+            (key, table.get(key))
+            for key in ("name", "description", "requires-python")
         ]
         for key in ("keywords", "classifiers", "authors", "maintainers"):
             values = table.get(key)
@@ -661,6 +662,28 @@ class Factory:
         readme = table.get("readme")
         if isinstance(readme, dict):
             fields.append(("readme.content-type", readme.get("content-type")))
+        # names of extras (Provides-Extra)
+        for key in ("optional-dependencies", "extras"):
+            extras = table.get(key)
+            if isinstance(extras, dict):
+                fields += [(key, name) for name in extras]
+        # [tool.poetry.dependencies]: what Requires-Dist prints verbatim
+        dependencies = table.get("dependencies")
+        if not isinstance(dependencies, dict):
+            dependencies = {}
+        for name, specs in dependencies.items():
+            fields.append(("dependencies", name))
+            for spec in specs if isinstance(specs, list) else [specs]:
+                if isinstance(spec, dict):
+                    fields += [
+                        (f"dependencies.{name}.{key}", spec.get(key))
+                        for key in ("url", "branch", "tag", "rev", "subdirectory")
+                    ]
+                    extras = spec.get("extras")
+                    fields += [
+                        (f"dependencies.{name}.extras", extra)
+                        for extra in (extras if isinstance(extras, list) else [])
+                    ]
 
         return [
             f"{location}.{field} must not contain line breaks"
